@@ -631,6 +631,33 @@ func (s *State) deviate(z int, m Msg) (now, later []Msg) {
 	case "vec":
 		return []Msg{mk(MutateVector(body, d.Var, s.Cfg))}, nil
 	case "sha":
+		// two private messages in a row: "A>B" (both now) or "A>>B" (B one phase later), each of
+		// {honest, wrong, empty, wrongtag, zero, short}: a first message that is not a usable share
+		// followed by a well-formed one (and the other way round)
+		if i := strings.Index(d.Var, ">"); i > 0 {
+			one := func(kind string) Msg {
+				b := append([]byte{}, m.Data...)
+				switch kind {
+				case "honest":
+					return m
+				case "empty":
+					return mk([]byte{})
+				case "wrongtag":
+					b[0] = 7
+					return mk(b)
+				case "short":
+					return mk(b[:len(b)-1])
+				case "wrong", "zero":
+					return mk(MutateScalar(b, 1, kind))
+				}
+				panic("dkgsys: unknown share kind " + kind)
+			}
+			first, rest := d.Var[:i], d.Var[i+1:]
+			if strings.HasPrefix(rest, ">") {
+				return []Msg{one(first)}, []Msg{one(rest[1:])}
+			}
+			return []Msg{one(first), one(rest)}, nil
+		}
 		switch d.Var {
 		case "latewrong": // a well-formed wrong share, one phase late
 			return nil, []Msg{mk(MutateScalar(body, 1, "wrong"))}
@@ -815,7 +842,8 @@ func Grammar(cfg *Config) []Deviation {
 				g = append(g, Deviation{z, "vec", v})
 			}
 			for _, r := range honest {
-				for _, v := range []string{"omit", "late", "dup", "empty", "tagonly", "wrongtag", "short", "long", "zero", "ger", "allff", "wrong", "latewrong", "thenlatewrong", "dupwrong"} {
+				for _, v := range []string{"omit", "late", "dup", "empty", "tagonly", "wrongtag", "short", "long", "zero", "ger", "allff", "wrong", "latewrong", "thenlatewrong", "dupwrong",
+					"empty>wrong", "wrongtag>wrong", "zero>wrong", "wrong>honest", "empty>honest", "empty>>wrong", "wrong>>honest"} {
 					g = append(g, Deviation{z, fmt.Sprintf("share:%d", r), v})
 				}
 				for _, v := range []string{"omit", "late", "dup", "short", "long", "zero", "ger", "wrong", "badcomplainer", "othercomplainer", "latewrong", "dupwrong", "wrongthenright"} {
